@@ -20,6 +20,11 @@ CHECKS = {
     technique="TLA+ state machine Effects.tla (function families declared in order; least-fixpoint may-write semantics vs transcribed changes-summary) checked by TLC; every family rendered and called from 16 side-effect-free contexts in the real type checker",
     text="TLC checks MayWrite=>Rejects after every declaration step for all families (write target x lvalue shape x write form x statement form x wrapper chain x argument mode) and exports them; libutap must reject every context whose semantics says it can write and accept the write-free twin.",
     note="Trusts TLC, the may-write semantics in Effects.tla, the python renderer; wrapper chains to depth 2; twin = write removed and reference parameters by value (libutap is deliberately conservative for reference arguments)."),
+ "C12": dict(
+    category="model_checking", design_ref="DESIGN.md section 5 (C12), 2.6",
+    technique="TLA+ module Constness.tla (type terms, lvalue terms, transcribed is_mutable/isModifiableLValue vs semantic ConstTarget) evaluated by TLC on the whole universe; each case rendered in every scope that can name it and type-checked by libutap",
+    text="TLC checks ConstTarget=>~modifiable and twin acceptance for 24 declared sources x access paths x 16 write forms (+conditional/comma lvalues, reference arguments to functions and template instantiations) and exports the cases; libutap must reject every write whose target is const or a binder and accept the mutable twin.",
+    note="Function-shaped module (states = exported cases). Trusts the rendering in checks/c12.py and that the type terms mirror the builder's composition (observed via the canonical dump)."),
 }
 NOT_APPLICABLE = {}
 PENDING_REASON = "check not built yet (work in progress; see DESIGN.md section 5 for the plan)"
